@@ -190,6 +190,13 @@ func NewDropStrategy() *DropStrategy {
 // ProcessData implements drop mode: non-blocking send, a few short retries to
 // absorb micro-bursts, then drop.
 func (ds *DropStrategy) ProcessData(data map[string]any) {
+	// Like the other strategies: nothing is accepted once Stop was called. Without
+	// this check a refused safeSendToDataChan fell through to the retry loop, where
+	// the send races with the closed done channel and can still enqueue the row
+	// while Stop is tearing the stream down.
+	if atomic.LoadInt32(&ds.stream.stopped) == 1 {
+		return
+	}
 	if ds.stream.safeSendToDataChan(data) {
 		return
 	}
